@@ -9,13 +9,15 @@ package wmedian
 //@
 //@ // wprefix(values, n): total weight of the first n values
 //@ spec wprefix(values []WeightedValue, n int) int = ite(n <= 0, 0, wprefix(values, n-1) + values[n-1].Weight())
+//@ lemma wprefix_nonneg(values []WeightedValue, n int) by induction(n)
+//@   ensures  0 <= wprefix(values, n)
 //@ lemma wprefix_mono(values []WeightedValue, a int, b int) by induction(b)
 //@   requires a <= b
-//@   ensures  wprefix(values, a) <= wprefix(values, b) && 0 <= wprefix(values, a)
+//@   ensures  wprefix(values, a) <= wprefix(values, b)
 //@
 //@ func Of
-//@   requires forall(i, 0, len(values), values[i] != nil)
+//@   requires len(values) > 0 && forall(i, 0, len(values), values[i] != nil)
 //@   requires wprefix(values, len(values)) >= stop && wprefix(values, len(values)) <= 4294967295
 //@   ensures  exists(k, 0, len(values), result == values[k] && wprefix(values, k+1) >= stop && (k == 0 || wprefix(values, k) < stop))
 //@   loop 1 invariant 0 <= _k && _k <= len(values) && curWeight == wprefix(values, _k) && (_k == 0 || curWeight < stop)
-//@   loop 1 hint use wprefix_mono(values, _k, len(values))
+//@   loop 1 hint use wprefix_mono(values, _k, len(values)); use wprefix_nonneg(values, _k)
